@@ -1,21 +1,1406 @@
+// c10 — correspondence harness for property C10 (session setup: same context,
+// symmetric pairwise secrets, zero shares, opening blame).
+//
+// Every case drives the REAL session protocol through
+// verif/harness/internal/drive/session (real round functions, CBOR on every
+// message, recording tapes, optional tampering hook), then
+//
+//   - gives the extracted Coq model (ocaml/c10/driver) each party's tape, the quorum
+//     and exactly the messages that were delivered to that party, and compares the
+//     model's sent messages, verdict (+ round, blamed party) and context observables
+//     (SessionID, transcript extract, quorum, first 32 bytes of each peer seed, the same
+//     for every listed (nested) sub-quorum) with the implementation's — the model's
+//     hash parameters are answered with Go's own blake2b / sha3 here (not the library),
+//     so this is the byte-level tie of the common-seed / pairwise-seed / sub-quorum
+//     layouts;
+//   - evaluates the property's own predicate on the implementation alone.
 package main
 
 import (
+	"bytes"
+	"crypto/sha3"
 	"fmt"
+	"io"
+	"math/big"
+	"os"
+	"sort"
+	"strconv"
+	"strings"
 
+	"golang.org/x/crypto/blake2b"
+
+	"github.com/bronlabs/bron-crypto/pkg/base/algebra"
+	"github.com/bronlabs/bron-crypto/pkg/base/curves/edwards25519"
+	"github.com/bronlabs/bron-crypto/pkg/base/curves/k256"
+	"github.com/bronlabs/bron-crypto/pkg/base/datastructures/hashset"
+	"github.com/bronlabs/bron-crypto/pkg/base/serde"
+	"github.com/bronlabs/bron-crypto/pkg/commitments/hashcom"
+	rsess "github.com/bronlabs/bron-crypto/pkg/mpc/session"
 	"github.com/bronlabs/bron-crypto/pkg/mpc/sharing"
+	"github.com/bronlabs/bron-crypto/pkg/mpc/zero/przs"
 
 	"verif/harness/internal/drive"
 	dsess "verif/harness/internal/drive/session"
+	"verif/harness/internal/vh"
 )
 
+const prop = "C10"
+
+var extractLabel = []byte("verif-c10-extract")
+
+// ---------------------------------------------------------------- cases
+
+type tamper struct {
+	Kind  string     // flip | zero | swap | replay | drop | rawflip
+	Round int        // round of the message (1,2,3)
+	Bcast bool       // broadcast or unicast message of that round
+	From  sharing.ID // sender
+	To    sharing.ID // recipient; 0 = every recipient of the broadcast (uniform)
+	Field int        // which field of the message
+	Bit   int        // which bit (flip / rawflip)
+	Other sharing.ID // swap: whose message is delivered instead; replay (unicast): which other recipient's copy
+}
+
+func (t *tamper) String() string {
+	if t == nil {
+		return "-"
+	}
+	b := "u"
+	if t.Bcast {
+		b = "b"
+	}
+	return fmt.Sprintf("%s:%d:%s:%d:%d:%d:%d:%d", t.Kind, t.Round, b, uint64(t.From), uint64(t.To), t.Field, t.Bit, uint64(t.Other))
+}
+
+func parseTamper(s string) *tamper {
+	if s == "-" || s == "" {
+		return nil
+	}
+	f := strings.Split(s, ":")
+	if len(f) != 8 {
+		panic("bad tamper " + s)
+	}
+	u := func(x string) uint64 { v, _ := strconv.ParseUint(x, 10, 64); return v }
+	return &tamper{Kind: f[0], Round: int(u(f[1])), Bcast: f[2] == "b", From: sharing.ID(u(f[3])), To: sharing.ID(u(f[4])),
+		Field: int(u(f[5])), Bit: int(u(f[6])), Other: sharing.ID(u(f[7]))}
+}
+
+type kase struct {
+	id     string
+	seed   int64 // seed of the tapes
+	quorum []sharing.ID
+	tam    *tamper
+	subs   [][][]sharing.ID // paths of nested sub-quorums
+
+	res   *dsess.Result
+	table []string
+	impl  map[string]string
+}
+
+func idsText(ids []sharing.ID, sep string) string {
+	s := make([]string, len(ids))
+	for i, id := range ids {
+		s[i] = strconv.FormatUint(uint64(id), 10)
+	}
+	if len(s) == 0 {
+		return "-"
+	}
+	return strings.Join(s, sep)
+}
+
+func parseIDs(s, sep string) []sharing.ID {
+	if s == "-" || s == "" {
+		return nil
+	}
+	var out []sharing.ID
+	for _, x := range strings.Split(s, sep) {
+		v, err := strconv.ParseUint(x, 10, 64)
+		if err != nil {
+			panic("bad id " + x)
+		}
+		out = append(out, sharing.ID(v))
+	}
+	return out
+}
+
+func subsText(subs [][][]sharing.ID) string {
+	if len(subs) == 0 {
+		return "-"
+	}
+	ps := make([]string, len(subs))
+	for i, p := range subs {
+		qs := make([]string, len(p))
+		for j, q := range p {
+			qs[j] = idsText(q, ".")
+		}
+		ps[i] = strings.Join(qs, "/")
+	}
+	return strings.Join(ps, "|")
+}
+
+func parseSubs(s string) [][][]sharing.ID {
+	if s == "-" || s == "" {
+		return nil
+	}
+	var out [][][]sharing.ID
+	for _, p := range strings.Split(s, "|") {
+		var path [][]sharing.ID
+		for _, q := range strings.Split(p, "/") {
+			path = append(path, parseIDs(q, "."))
+		}
+		out = append(out, path)
+	}
+	return out
+}
+
+// canonical, replayable case text
+func (k *kase) text() string {
+	return fmt.Sprintf("sess seed=%d q=%s tamper=%s subs=%s", k.seed, idsText(k.quorum, ","), k.tam.String(), subsText(k.subs))
+}
+
+func parseCase(s string) *kase {
+	k := &kase{id: "replay"}
+	for _, f := range strings.Fields(s) {
+		kv := strings.SplitN(f, "=", 2)
+		if len(kv) != 2 {
+			continue
+		}
+		switch kv[0] {
+		case "seed":
+			k.seed, _ = strconv.ParseInt(kv[1], 10, 64)
+		case "q":
+			k.quorum = parseIDs(kv[1], ",")
+		case "tamper":
+			k.tam = parseTamper(kv[1])
+		case "subs":
+			k.subs = parseSubs(kv[1])
+		}
+	}
+	return k
+}
+
+// ---------------------------------------------------------------- tampering hook
+
+func flipBit(b []byte, bit int) {
+	if len(b) == 0 {
+		return
+	}
+	bit %= len(b) * 8
+	b[bit/8] ^= 1 << (bit % 8)
+}
+
+func remarshal[M any](payload []byte, f func(m M)) []byte {
+	m, err := serde.UnmarshalCBOR[M](payload)
+	if err != nil {
+		return payload
+	}
+	f(m)
+	out, err := serde.MarshalCBOR(m)
+	if err != nil {
+		return payload
+	}
+	return out
+}
+
+// alterField applies f to field number `field` of the message of (round, bcast) encoded in payload.
+func alterField(round int, bcast bool, field int, payload []byte, f func(b []byte)) []byte {
+	switch {
+	case round == 1:
+		return remarshal(payload, func(m *rsess.Round1Broadcast) {
+			if field == 0 {
+				f(m.CommonCommitment[:])
+			} else if m.Ck != nil {
+				f(m.Ck[:])
+			}
+		})
+	case round == 2 && bcast:
+		return remarshal(payload, func(m *rsess.Round2Broadcast) {
+			if field == 0 {
+				f(m.CommonContribution[:])
+			} else {
+				f(m.CommonContributionWitness[:])
+			}
+		})
+	case round == 2:
+		return remarshal(payload, func(m *rsess.Round2P2P) { f(m.PairwiseContributionCommitment[:]) })
+	default:
+		return remarshal(payload, func(m *rsess.Round3P2P) {
+			if field == 0 {
+				f(m.PairwiseContribution[:])
+			} else {
+				f(m.PairwiseContributionWitness[:])
+			}
+		})
+	}
+}
+
+// hookFor builds the hook for a tamper spec.  swap needs the message another party sent
+// in the same run (seen earlier or later in the round: the hook is given the as-sent
+// messages of an identical honest dry run); replay of a broadcast uses the same
+// sender's message of ANOTHER session (replaySrc).
+func hookFor(t *tamper, dry, replaySrc *dsess.Result) drive.Hook {
+	if t == nil {
+		return nil
+	}
+	sent := func(r *dsess.Result, from, to sharing.ID) []byte {
+		var b []byte
+		var err error
+		switch {
+		case t.Round == 1:
+			if m, ok := r.R1B[from]; ok {
+				b, err = serde.MarshalCBOR(m)
+			}
+		case t.Round == 2 && t.Bcast:
+			if m, ok := r.R2B[from]; ok {
+				b, err = serde.MarshalCBOR(m)
+			}
+		case t.Round == 2:
+			if m, ok := r.R2U[from][to]; ok {
+				b, err = serde.MarshalCBOR(m)
+			}
+		default:
+			if m, ok := r.R3U[from][to]; ok {
+				b, err = serde.MarshalCBOR(m)
+			}
+		}
+		if err != nil {
+			return nil
+		}
+		return b
+	}
+	return drive.HookFunc(func(m *drive.Msg, rcpt sharing.ID) []byte {
+		if m.Round != t.Round || m.From != t.From || (m.To == 0) != t.Bcast {
+			return m.Payload
+		}
+		if t.To != 0 && rcpt != t.To {
+			return m.Payload
+		}
+		p := append([]byte(nil), m.Payload...)
+		switch t.Kind {
+		case "drop":
+			return nil
+		case "rawflip":
+			flipBit(p, t.Bit)
+			return p
+		case "flip":
+			return alterField(t.Round, t.Bcast, t.Field, p, func(b []byte) { flipBit(b, t.Bit) })
+		case "zero":
+			return alterField(t.Round, t.Bcast, t.Field, p, func(b []byte) {
+				for i := range b {
+					b[i] = 0
+				}
+			})
+		case "swap":
+			if b := sent(dry, t.Other, rcpt); b != nil {
+				return b
+			}
+			return p
+		case "replay":
+			var b []byte
+			if t.Bcast {
+				b = sent(replaySrc, t.From, rcpt)
+			} else {
+				b = sent(dry, t.From, t.Other)
+			}
+			if b != nil {
+				return b
+			}
+			return p
+		}
+		return p
+	})
+}
+
+// ---------------------------------------------------------------- running a case on the implementation
+
+func (k *kase) run() {
+	cfg := dsess.Config{Seed: k.seed, Prop: prop, Quorum: k.quorum}
+	if k.tam != nil {
+		dry := dsess.RunFull(cfg)
+		var rep *dsess.Result
+		if k.tam.Kind == "replay" && k.tam.Bcast {
+			c2 := cfg
+			c2.Seed = k.seed + 1000003
+			rep = dsess.RunFull(c2)
+		}
+		cfg.Hook = hookFor(k.tam, dry, rep)
+	}
+	k.res = dsess.RunFull(cfg)
+	k.impl = k.observe()
+}
+
+func ctxFields(ctx *rsess.Context) string {
+	sid := ctx.SessionID()
+	tx, err := ctx.Transcript().Clone().ExtractBytes(string(extractLabel), 32)
+	txs := "ERR"
+	if err == nil {
+		txs = vh.Hex(tx)
+	}
+	var q []sharing.ID
+	for id := range ctx.AllPartiesOrdered() {
+		q = append(q, id)
+	}
+	seeds := ctx.Seeds()
+	var parts []string
+	// the model lists seeds in quorum order (skipping the holder)
+	for _, id := range q {
+		r, ok := seeds[id]
+		if !ok {
+			continue
+		}
+		buf := make([]byte, 32)
+		if _, err := io.ReadFull(r, buf); err != nil {
+			parts = append(parts, fmt.Sprintf("%d:ERR", uint64(id)))
+		} else {
+			parts = append(parts, fmt.Sprintf("%d:%s", uint64(id), vh.Hex(buf)))
+		}
+	}
+	qs := idsText(q, ",")
+	if len(q) == 0 {
+		qs = ""
+	}
+	return strings.Join([]string{vh.Hex(sid[:]), txs, qs, strings.Join(parts, "+")}, "/")
+}
+
+func subContext(ctx *rsess.Context, path [][]sharing.ID) (out *rsess.Context) {
+	cur := ctx
+	for _, q := range path {
+		var next *rsess.Context
+		var err error
+		p := vh.Safely(func() { next, err = cur.SubContext(hashset.NewComparable(q...).Freeze()) })
+		if p != "" || err != nil || next == nil {
+			return nil
+		}
+		cur = next
+	}
+	return cur
+}
+
+func verdictText(v drive.Verdict) string {
+	switch v.Class {
+	case "ok":
+		return "ok"
+	case "reject":
+		return "reject"
+	case "reject_blame":
+		return "blame:" + idsText(v.Blamed, ",")
+	}
+	return v.Class
+}
+
+func (k *kase) observe() map[string]string {
+	o := map[string]string{}
+	r := k.res
+	for _, id := range r.Quorum {
+		ids := strconv.FormatUint(uint64(id), 10)
+		v := r.Trace.Verdicts[id]
+		o[ids+".v"] = verdictText(v)
+		o[ids+".vr"] = strconv.Itoa(v.Round)
+		if m, ok := r.R1B[id]; ok {
+			ck := "-"
+			if m.Ck != nil {
+				ck = vh.Hex(m.Ck[:])
+			}
+			o[ids+".r1"] = vh.Hex(m.CommonCommitment[:]) + ":" + ck
+		}
+		if m, ok := r.R2B[id]; ok {
+			o[ids+".r2b"] = vh.Hex(m.CommonContribution[:]) + ":" + vh.Hex(m.CommonContributionWitness[:])
+		}
+		for to, m := range r.R2U[id] {
+			o[ids+".r2u."+strconv.FormatUint(uint64(to), 10)] = vh.Hex(m.PairwiseContributionCommitment[:])
+		}
+		for to, m := range r.R3U[id] {
+			o[ids+".r3u."+strconv.FormatUint(uint64(to), 10)] = vh.Hex(m.PairwiseContribution[:]) + ":" + vh.Hex(m.PairwiseContributionWitness[:])
+		}
+		if ctx, ok := r.Ctx[id]; ok {
+			o[ids+".ctx"] = ctxFields(ctx)
+			for i, path := range k.subs {
+				key := ids + ".sub." + strconv.Itoa(i)
+				if sc := subContext(ctx, path); sc != nil {
+					o[key] = ctxFields(sc)
+				} else {
+					o[key] = "none"
+				}
+			}
+		}
+	}
+	return o
+}
+
+// ---------------------------------------------------------------- model case line
+
+func inboxText[M any](in map[sharing.ID]M, f func(m M) string) string {
+	if len(in) == 0 {
+		return "-"
+	}
+	var parts []string
+	for _, from := range drive.SortedIDs(in) {
+		parts = append(parts, strconv.FormatUint(uint64(from), 10)+":"+f(in[from]))
+	}
+	return strings.Join(parts, ",")
+}
+
+func (k *kase) line(rng *vh.Rng) string {
+	var sb strings.Builder
+	tbl := "-"
+	if len(k.table) > 0 {
+		tbl = strings.Join(k.table, ";")
+	}
+	fmt.Fprintf(&sb, "S %s %s %s %s", k.id, tbl, vh.Hex(extractLabel), subsText(k.subs))
+	r := k.res
+	for idx, id := range r.Quorum {
+		// every party is told the quorum in its own (rotated) order: the constructor sorts
+		q := append(append([]sharing.ID(nil), r.Quorum[idx:]...), r.Quorum[:idx]...)
+		tape := r.Trace.Tapes[id]
+		fmt.Fprintf(&sb, " P %d %s %s %d", uint64(id), idsText(q, ","), vh.Hex(tape.Bytes), r.Undec[id])
+		sb.WriteString(" " + inboxText(r.InR1B[id], func(m *rsess.Round1Broadcast) string {
+			ck := "-"
+			if m.Ck != nil {
+				ck = vh.Hex(m.Ck[:])
+			}
+			return vh.Hex(m.CommonCommitment[:]) + ":" + ck
+		}))
+		sb.WriteString(" " + inboxText(r.InR2B[id], func(m *rsess.Round2Broadcast) string {
+			return vh.Hex(m.CommonContribution[:]) + ":" + vh.Hex(m.CommonContributionWitness[:])
+		}))
+		sb.WriteString(" " + inboxText(r.InR2U[id], func(m *rsess.Round2P2P) string {
+			return vh.Hex(m.PairwiseContributionCommitment[:])
+		}))
+		sb.WriteString(" " + inboxText(r.InR3U[id], func(m *rsess.Round3P2P) string {
+			return vh.Hex(m.PairwiseContribution[:]) + ":" + vh.Hex(m.PairwiseContributionWitness[:])
+		}))
+	}
+	return sb.String()
+}
+
+// ---------------------------------------------------------------- the oracle: Go's own hashes
+
+func answer(q string) (string, error) {
+	f := strings.Split(q, ",")
+	switch {
+	case f[0] == "c" && len(f) == 3:
+		h, err := blake2b.New256(vh.UnHex(f[1]))
+		if err != nil {
+			// a key blake2b refuses (longer than 64 bytes): no value exists; the model
+			// never commits under such a key in a run the implementation accepted
+			return "", err
+		}
+		h.Write(vh.UnHex(f[2]))
+		return vh.Hex(h.Sum(nil)), nil
+	case f[0] == "h" && len(f) == 2:
+		d := sha3.Sum512(vh.UnHex(f[1]))
+		return vh.Hex(d[:]), nil
+	case f[0] == "x" && len(f) == 5:
+		off, _ := strconv.Atoi(f[3])
+		n, _ := strconv.Atoi(f[4])
+		x := sha3.NewCSHAKE256(nil, vh.UnHex(f[1]))
+		x.Write(vh.UnHex(f[2]))
+		buf := make([]byte, off+n)
+		x.Read(buf)
+		return vh.Hex(buf[off:]), nil
+	}
+	return "", fmt.Errorf("bad query %q", q)
+}
+
+// solve runs the model driver over the lines, answering hash queries until none is left.
+func solve(driver string, n int, line func(i int) string, addTable func(i int, entries []string)) ([]string, error) {
+	out := make([]string, n)
+	todo := make([]int, n)
+	for i := range todo {
+		todo[i] = i
+	}
+	for pass := 0; len(todo) > 0; pass++ {
+		if pass > 12 {
+			return nil, fmt.Errorf("model still asks for hashes after %d passes", pass)
+		}
+		lines := make([]string, len(todo))
+		for j, i := range todo {
+			lines[j] = line(i)
+		}
+		res, err := vh.Driver(driver, lines)
+		if err != nil {
+			return nil, err
+		}
+		var next []int
+		for j, i := range todo {
+			if strings.HasPrefix(res[j], "Q ") {
+				f := strings.SplitN(res[j], " ", 3)
+				var entries []string
+				for _, q := range strings.Split(f[2], ";") {
+					a, err := answer(q)
+					if err != nil {
+						return nil, err
+					}
+					entries = append(entries, q+":"+a)
+				}
+				addTable(i, entries)
+				next = append(next, i)
+			} else {
+				out[i] = res[j]
+			}
+		}
+		todo = next
+	}
+	return out, nil
+}
+
+func parseKV(s string) map[string]string {
+	m := map[string]string{}
+	f := strings.Fields(s)
+	for _, t := range f[2:] {
+		kv := strings.SplitN(t, "=", 2)
+		if len(kv) == 2 {
+			m[kv[0]] = kv[1]
+		}
+	}
+	return m
+}
+
+func diffMaps(model, impl map[string]string) (key, detail string) {
+	keys := map[string]bool{}
+	for k := range model {
+		keys[k] = true
+	}
+	for k := range impl {
+		keys[k] = true
+	}
+	var ks []string
+	for k := range keys {
+		ks = append(ks, k)
+	}
+	sort.Strings(ks)
+	for _, k := range ks {
+		a, okA := model[k]
+		b, okB := impl[k]
+		if a != b {
+			if !okA {
+				a = "<absent>"
+			}
+			if !okB {
+				b = "<absent>"
+			}
+			return k, fmt.Sprintf("%s: model=%s impl=%s", k, clip(a), clip(b))
+		}
+	}
+	return "", ""
+}
+
+func clip(s string) string {
+	if len(s) > 400 {
+		return s[:400] + "…"
+	}
+	return s
+}
+
+// keyClass turns "12.sub.3" into "sub", "12.r2u.7" into "r2u" (stable mismatch keys)
+func keyClass(k string) string {
+	f := strings.Split(k, ".")
+	if len(f) >= 2 {
+		return f[1]
+	}
+	return k
+}
+
+// ---------------------------------------------------------------- the property predicate on the implementation
+
+type group struct {
+	name string
+	sum  func(ctxs []*rsess.Context) (identity bool, err string)
+}
+
+func sumOver[GE algebra.GroupElement[GE]](g algebra.FiniteGroup[GE], ctxs []*rsess.Context) (bool, string) {
+	var acc GE
+	var errText string
+	p := vh.Safely(func() {
+		acc = g.OpIdentity()
+		for _, c := range ctxs {
+			sh, err := przs.SampleZeroShare(c, g)
+			if err != nil {
+				errText = "SampleZeroShare: " + firstLine(err.Error())
+				return
+			}
+			acc = acc.Op(sh.Value())
+		}
+	})
+	if p != "" {
+		return false, "PANIC " + p
+	}
+	if errText != "" {
+		return false, errText
+	}
+	return acc.IsOpIdentity(), ""
+}
+
+func firstLine(s string) string {
+	if i := strings.IndexByte(s, '\n'); i >= 0 {
+		return s[:i]
+	}
+	return s
+}
+
+var groups = []group{
+	{"k256", func(c []*rsess.Context) (bool, string) { return sumOver(k256.NewCurve(), c) }},
+	{"edwards25519", func(c []*rsess.Context) (bool, string) { return sumOver(edwards25519.NewPrimeSubGroup(), c) }},
+	{"k256-scalars", func(c []*rsess.Context) (bool, string) { return sumOver(k256.NewScalarField(), c) }},
+	{"edwards25519-scalars", func(c []*rsess.Context) (bool, string) { return sumOver(edwards25519.NewScalarField(), c) }},
+}
+
+// seedPrefix reads the first 32 bytes of every peer seed of ctx.
+func seedPrefixes(ctx *rsess.Context) map[sharing.ID]string {
+	out := map[sharing.ID]string{}
+	for id, r := range ctx.Seeds() {
+		buf := make([]byte, 32)
+		if _, err := io.ReadFull(r, buf); err == nil {
+			out[id] = vh.Hex(buf)
+		}
+	}
+	return out
+}
+
+// agreeAndSymmetric checks, for contexts of the same (sub)quorum: same SID, same transcript
+// extract, seed(i,j) == seed(j,i), seeds of different pairs differ.  Returns "" if fine.
+func agreeAndSymmetric(ctxs map[sharing.ID]*rsess.Context) string {
+	ids := drive.SortedIDs(ctxs)
+	if len(ids) == 0 {
+		return ""
+	}
+	var sid0, tx0 string
+	pre := map[sharing.ID]map[sharing.ID]string{}
+	for n, id := range ids {
+		c := ctxs[id]
+		sid := c.SessionID()
+		tx, err := c.Transcript().Clone().ExtractBytes("verif-c10-pred", 32)
+		if err != nil {
+			return "extract failed"
+		}
+		if n == 0 {
+			sid0, tx0 = vh.Hex(sid[:]), vh.Hex(tx)
+		} else if vh.Hex(sid[:]) != sid0 {
+			return fmt.Sprintf("session ids differ between %d and %d", uint64(ids[0]), uint64(id))
+		} else if vh.Hex(tx) != tx0 {
+			return fmt.Sprintf("transcript extracts differ between %d and %d", uint64(ids[0]), uint64(id))
+		}
+		pre[id] = seedPrefixes(c)
+	}
+	seen := map[string]string{}
+	for _, i := range ids {
+		for _, j := range ids {
+			if i >= j {
+				continue
+			}
+			a, okA := pre[i][j]
+			b, okB := pre[j][i]
+			if !okA || !okB {
+				return fmt.Sprintf("missing seed for pair (%d,%d)", uint64(i), uint64(j))
+			}
+			if a != b {
+				return fmt.Sprintf("seed(%d,%d) != seed(%d,%d)", uint64(i), uint64(j), uint64(j), uint64(i))
+			}
+			pair := fmt.Sprintf("(%d,%d)", uint64(i), uint64(j))
+			if other, dup := seen[a]; dup {
+				return fmt.Sprintf("pairs %s and %s share a seed", other, pair)
+			}
+			seen[a] = pair
+		}
+	}
+	return ""
+}
+
+func zeroSums(ctxs map[sharing.ID]*rsess.Context, gs []group) string {
+	ids := drive.SortedIDs(ctxs)
+	list := make([]*rsess.Context, len(ids))
+	for i, id := range ids {
+		list[i] = ctxs[id]
+	}
+	for _, g := range gs {
+		ok, e := g.sum(list)
+		if e != "" {
+			return g.name + ": " + e
+		}
+		if !ok {
+			return "zero shares over " + g.name + " do not sum to the identity"
+		}
+	}
+	return ""
+}
+
+func sameSet(a, b []sharing.ID) bool {
+	if len(a) != len(b) {
+		return false
+	}
+	x := append([]sharing.ID(nil), a...)
+	y := append([]sharing.ID(nil), b...)
+	sort.Slice(x, func(i, j int) bool { return x[i] < x[j] })
+	sort.Slice(y, func(i, j int) bool { return y[i] < y[j] })
+	for i := range x {
+		if x[i] != y[i] {
+			return false
+		}
+	}
+	return true
+}
+
+// global registry of every seed prefix / sid seen, to check distinctness across sessions
+// and sub-quorums: value -> description of where it belongs
+type registry struct {
+	seeds map[string]string
+}
+
+func (g *registry) add(val, where string) string {
+	if old, ok := g.seeds[val]; ok && old != where {
+		return fmt.Sprintf("seed prefix %s… shared by %s and %s", val[:16], old, where)
+	}
+	g.seeds[val] = where
+	return ""
+}
+
+// predicate evaluates the property on the implementation for one case. Returns (key, detail) of the first failure.
+func (k *kase) predicate(reg *registry, gs []group) (string, string) {
+	r := k.res
+	if k.tam == nil {
+		// honest run: everybody completes
+		for _, id := range r.Quorum {
+			if v := r.Trace.Verdicts[id]; v.Class != "ok" || r.Ctx[id] == nil {
+				return "honest-run-fails", fmt.Sprintf("party %d: %s in round %d (%s)", uint64(id), v.String(), v.Round, v.Detail)
+			}
+		}
+		if e := agreeAndSymmetric(r.Ctx); e != "" {
+			return "context-agreement", e
+		}
+		if e := zeroSums(r.Ctx, gs); e != "" {
+			return "zero-share-sum", e
+		}
+		sess := fmt.Sprintf("session(seed=%d,q=%s)", k.seed, idsText(r.Quorum, ","))
+		for _, i := range r.Quorum {
+			for j, v := range seedPrefixes(r.Ctx[i]) {
+				lo, hi := min(i, j), max(i, j)
+				if e := reg.add(v, fmt.Sprintf("%s pair(%d,%d)", sess, uint64(lo), uint64(hi))); e != "" {
+					return "seed-distinct", e
+				}
+			}
+		}
+		// sub-contexts: members agree, shares sum to zero, and everything is distinct
+		// from the parent and from other sub-quorums
+		type txrec struct {
+			tx    string
+			qtext string
+		}
+		var txs []txrec
+		for _, path := range k.subs {
+			subs := map[sharing.ID]*rsess.Context{}
+			last := path[len(path)-1]
+			valid := true
+			for _, id := range last {
+				c, ok := r.Ctx[id]
+				if !ok {
+					valid = false
+					break
+				}
+				sc := subContext(c, path)
+				if sc == nil {
+					valid = false
+					break
+				}
+				subs[id] = sc
+			}
+			if !valid || len(subs) != len(last) {
+				continue // a refused sub-quorum (not a subset, too small, ...) — compared with the model only
+			}
+			ptext := subsText([][][]sharing.ID{path})
+			if e := agreeAndSymmetric(subs); e != "" {
+				return "subcontext-agreement", "sub-quorum " + ptext + ": " + e
+			}
+			if e := zeroSums(subs, gs[:1]); e != "" {
+				return "subcontext-zero-share-sum", "sub-quorum " + ptext + ": " + e
+			}
+			first := subs[last[0]]
+			if sid, psid := first.SessionID(), r.Ctx[last[0]].SessionID(); sid != psid {
+				return "subcontext-sid", "sub-quorum " + ptext + ": session id differs from the parent's"
+			}
+			tx, _ := first.Transcript().Clone().ExtractBytes("verif-c10-pred", 32)
+			// canonical description of the path as sets
+			var canon []string
+			for _, q := range path {
+				s := append([]sharing.ID(nil), q...)
+				sort.Slice(s, func(a, b int) bool { return s[a] < s[b] })
+				canon = append(canon, idsText(s, "."))
+			}
+			qtext := strings.Join(canon, "/")
+			txs = append(txs, txrec{vh.Hex(tx), qtext})
+			for _, i := range last {
+				for j, v := range seedPrefixes(subs[i]) {
+					lo, hi := min(i, j), max(i, j)
+					if e := reg.add(v, fmt.Sprintf("%s sub(%s) pair(%d,%d)", sess, qtext, uint64(lo), uint64(hi))); e != "" {
+						return "subcontext-seed-distinct", e
+					}
+				}
+			}
+		}
+		ptx, _ := r.Ctx[r.Quorum[0]].Transcript().Clone().ExtractBytes("verif-c10-pred", 32)
+		txs = append(txs, txrec{vh.Hex(ptx), ""})
+		for a := range txs {
+			for b := range txs {
+				if a < b && txs[a].tx == txs[b].tx && txs[a].qtext != txs[b].qtext {
+					return "subcontext-transcript-distinct", fmt.Sprintf("sub-quorum paths %q and %q have the same transcript extract", txs[a].qtext, txs[b].qtext)
+				}
+			}
+		}
+		return "", ""
+	}
+
+	// tampered run. The predicate covers altered commitments / openings / contributions
+	// (everything except the commitment KEY of round 1, whose alteration makes the SENDER's
+	// later openings fail — compared with the model only) and dropped messages.
+	t := k.tam
+	if t.Round == 1 && (t.Field == 1 && (t.Kind == "flip" || t.Kind == "zero") || t.Kind == "rawflip" || t.Kind == "swap" || t.Kind == "replay") {
+		if !(t.Kind == "zero" && t.Field == 1) {
+			return "", ""
+		}
+	}
+	if t.Kind == "rawflip" {
+		return "", "" // may change anything (or nothing the decoder looks at)
+	}
+	// was anything actually altered?
+	altered := map[sharing.ID]bool{}
+	for _, m := range r.Trace.Messages {
+		if m.Round == t.Round && m.From == t.From && (m.To == 0) == t.Bcast && (m.Altered != nil || m.Dropped) {
+			if m.To != 0 {
+				altered[m.To] = true
+			}
+		}
+	}
+	if t.Bcast {
+		for _, id := range r.Quorum {
+			if id != t.From && (t.To == 0 || t.To == id) {
+				altered[id] = true
+			}
+		}
+		n := 0
+		for _, m := range r.Trace.Messages {
+			if m.Round == t.Round && m.From == t.From && m.To == 0 && (m.Altered != nil || m.Dropped) {
+				n++
+			}
+		}
+		if n == 0 {
+			altered = map[sharing.ID]bool{}
+		}
+	}
+	if len(altered) == 0 {
+		return "", ""
+	}
+	for _, id := range r.Quorum {
+		if id == t.From {
+			continue // the deviating party's own verdict is not constrained
+		}
+		v := r.Trace.Verdicts[id]
+		if altered[id] {
+			if v.Class != "reject_blame" || len(v.Blamed) != 1 || v.Blamed[0] != t.From {
+				return "tamper-not-blamed", fmt.Sprintf("party %d received an altered message from %d (%s) but its verdict is %s (round %d)", uint64(id), uint64(t.From), t.String(), v.String(), v.Round)
+			}
+			continue
+		}
+		// a party that received only honest messages may complete, or miss the message of
+		// a party that already stopped — but must never blame anybody but the
+		// deviating party or a party that stopped
+		if v.Class == "reject_blame" {
+			for _, b := range v.Blamed {
+				if b == t.From {
+					continue
+				}
+				if bv := r.Trace.Verdicts[b]; bv.Class == "ok" {
+					return "tamper-wrong-blame", fmt.Sprintf("party %d blames %d, which neither deviated nor stopped (%s)", uint64(id), uint64(b), t.String())
+				}
+			}
+		}
+	}
+	return "", ""
+}
+
+// ---------------------------------------------------------------- zero shares against the model (k256 scalars)
+
+func scalarInt(b []byte) *big.Int { return new(big.Int).SetBytes(b) }
+
+// przsLine builds the model case for the zero shares of ctxs over the k256 scalar field
+// and returns the implementation's shares as text.
+func przsLine(id string, ctxs map[sharing.ID]*rsess.Context) (line, impl string, err error) {
+	f := k256.NewScalarField()
+	q := f.Order().Big()
+	ids := drive.SortedIDs(ctxs)
+	var rs, shares []string
+	sum := new(big.Int)
+	for _, i := range ids {
+		seeds := ctxs[i].Seeds()
+		for _, j := range ids {
+			if i < j {
+				v, e := f.Random(seeds[j])
+				if e != nil {
+					return "", "", e
+				}
+				rs = append(rs, fmt.Sprintf("%d.%d.%s", uint64(i), uint64(j), vh.ZHex(scalarInt(v.Bytes()))))
+			}
+		}
+		sh, e := przs.SampleZeroShare(ctxs[i], f)
+		if e != nil {
+			return "", "", e
+		}
+		x := scalarInt(sh.Value().Bytes())
+		sum.Add(sum, x)
+		shares = append(shares, fmt.Sprintf("%d:%s", uint64(i), vh.ZHex(x)))
+	}
+	sum.Mod(sum, q)
+	r := "-"
+	if len(rs) > 0 {
+		r = strings.Join(rs, ",")
+	}
+	return fmt.Sprintf("Z %s %s %s %s", id, vh.ZHex(q), idsText(ids, ","), r),
+		fmt.Sprintf("R %s %s sum=%s", id, strings.Join(shares, ","), vh.ZHex(sum)), nil
+}
+
+// ---------------------------------------------------------------- NewContext called directly
+
+type ncCase struct {
+	id       string
+	holder   sharing.ID
+	quorum   []sharing.ID
+	common   []byte
+	pairwise map[sharing.ID][]byte
+	table    []string
+	impl     string
+}
+
+func (c *ncCase) text() string {
+	var p []string
+	for _, id := range drive.SortedIDs(c.pairwise) {
+		p = append(p, fmt.Sprintf("%d:%s", uint64(id), vh.Hex(c.pairwise[id])))
+	}
+	ps := "-"
+	if len(p) > 0 {
+		ps = strings.Join(p, ",")
+	}
+	return fmt.Sprintf("%d %s %s %s", uint64(c.holder), idsText(c.quorum, ","), vh.Hex(c.common), ps)
+}
+
+func (c *ncCase) run() {
+	var ctx *rsess.Context
+	var err error
+	p := vh.Safely(func() {
+		ctx, err = rsess.NewContext(c.holder, hashset.NewComparable(c.quorum...).Freeze(), c.common, c.pairwise)
+	})
+	switch {
+	case p != "":
+		c.impl = "ctx=PANIC"
+	case err != nil || ctx == nil:
+		c.impl = "ctx=none"
+	default:
+		c.impl = "ctx=" + ctxFields(ctx)
+	}
+}
+
+func (c *ncCase) line() string {
+	tbl := "-"
+	if len(c.table) > 0 {
+		tbl = strings.Join(c.table, ";")
+	}
+	return fmt.Sprintf("N %s %s %s %s", c.id, tbl, vh.Hex(extractLabel), c.text())
+}
+
+// ---------------------------------------------------------------- generation
+
+func idPools(rng *vh.Rng, n int) [][]sharing.ID {
+	ordinal := make([]sharing.ID, n)
+	for i := range ordinal {
+		ordinal[i] = sharing.ID(i + 1)
+	}
+	sparse := []sharing.ID{977, 3, 65, 40000, 64, 12, 1 << 33, 255, 256, 70000}[:n]
+	huge := make([]sharing.ID, n)
+	huge[0] = sharing.ID(^uint64(0))
+	huge[1] = sharing.ID(1 << 40)
+	for i := 2; i < n; i++ {
+		huge[i] = sharing.ID(1<<40 + rng.Uint64()>>(uint(i)%20))
+	}
+	if n > 2 {
+		huge[2] = 1
+	}
+	// all distinct?
+	seen := map[sharing.ID]bool{}
+	for i, x := range huge {
+		for seen[x] || x == 0 {
+			x++
+		}
+		seen[x] = true
+		huge[i] = x
+	}
+	return [][]sharing.ID{ordinal, sparse, huge}
+}
+
+// subsets of ids of size lo..hi (in the order of ids)
+func subsets(ids []sharing.ID, lo, hi int) [][]sharing.ID {
+	var out [][]sharing.ID
+	n := len(ids)
+	for mask := 1; mask < 1<<n; mask++ {
+		var s []sharing.ID
+		for i := 0; i < n; i++ {
+			if mask>>i&1 == 1 {
+				s = append(s, ids[i])
+			}
+		}
+		if len(s) >= lo && len(s) <= hi {
+			out = append(out, s)
+		}
+	}
+	return out
+}
+
+func shuffle(rng *vh.Rng, ids []sharing.ID) []sharing.ID {
+	out := append([]sharing.ID(nil), ids...)
+	for i := len(out) - 1; i > 0; i-- {
+		j := rng.Intn(i + 1)
+		out[i], out[j] = out[j], out[i]
+	}
+	return out
+}
+
+// subPaths lists the sub-quorum paths checked for a quorum: every sub-quorum of size
+// 2..maxSub (shuffled member order), a few nested ones, and refused ones.
+func subPaths(rng *vh.Rng, quorum []sharing.ID, maxSub, nested int) [][][]sharing.ID {
+	var out [][][]sharing.ID
+	all := subsets(quorum, 2, min(maxSub, len(quorum)))
+	for _, s := range all {
+		out = append(out, [][]sharing.ID{shuffle(rng, s)})
+	}
+	for i := 0; i < nested && len(quorum) >= 3; i++ {
+		outer := vh.Pick(rng, subsets(quorum, 3, len(quorum)))
+		inner := vh.Pick(rng, subsets(outer, 2, len(outer)))
+		path := [][]sharing.ID{shuffle(rng, outer), shuffle(rng, inner)}
+		if len(inner) >= 3 && rng.Bool() {
+			path = append(path, shuffle(rng, vh.Pick(rng, subsets(inner, 2, len(inner)))))
+		}
+		out = append(out, path)
+	}
+	// refused: singleton, foreign member, inner not a subset of outer
+	out = append(out, [][]sharing.ID{{quorum[0]}})
+	foreign := quorum[0] + 1
+	for contains(quorum, foreign) || foreign == 0 {
+		foreign++
+	}
+	out = append(out, [][]sharing.ID{{quorum[0], quorum[1], foreign}})
+	if len(quorum) >= 3 {
+		out = append(out, [][]sharing.ID{{quorum[0], quorum[1]}, {quorum[0], quorum[2]}})
+	}
+	return out
+}
+
+func contains(ids []sharing.ID, x sharing.ID) bool {
+	for _, y := range ids {
+		if x == y {
+			return true
+		}
+	}
+	return false
+}
+
+func genTamper(rng *vh.Rng, quorum []sharing.ID, i int) *tamper {
+	kinds := []string{"flip", "flip", "flip", "zero", "swap", "replay", "drop", "rawflip"}
+	t := &tamper{Kind: kinds[i%len(kinds)]}
+	slot := (i / len(kinds)) % 4 // which message type
+	switch slot {
+	case 0:
+		t.Round, t.Bcast = 1, true
+	case 1:
+		t.Round, t.Bcast = 2, true
+	case 2:
+		t.Round, t.Bcast = 2, false
+	default:
+		t.Round, t.Bcast = 3, false
+	}
+	q := shuffle(rng, quorum)
+	t.From = q[0]
+	if !t.Bcast {
+		t.To = q[1]
+	} else if rng.Chance(1, 4) {
+		t.To = q[1] // non-uniform broadcast alteration: that recipient alone
+	}
+	t.Field = rng.Intn(2)
+	if t.Round == 2 && !t.Bcast {
+		t.Field = 0
+	}
+	t.Bit = rng.Intn(256)
+	if t.Kind == "rawflip" {
+		t.Bit = rng.Intn(8 * 120)
+	}
+	// swap: another sender; replay(unicast): another recipient
+	if len(q) >= 3 {
+		t.Other = q[2]
+	} else if t.Kind == "swap" {
+		t.Other = q[1] // two parties: the recipient's own message
+	} else {
+		t.Other = q[1]
+	}
+	if t.Kind == "replay" && !t.Bcast && len(q) < 3 {
+		t.Kind = "flip"
+	}
+	if t.Kind == "swap" && !t.Bcast && len(q) < 3 {
+		t.Kind = "zero"
+	}
+	return t
+}
+
+// ---------------------------------------------------------------- main
+
 func main() {
-	tr := dsess.Run(dsess.Config{Seed: 1, Prop: "C10", Quorum: []sharing.ID{7, 3, 1 << 41}})
-	for _, id := range drive.SortedIDs(tr.Verdicts) {
-		fmt.Println(id, tr.Verdicts[id], tr.Outputs[id], tr.Tapes[id].ReadsText())
+	a := vh.ParseArgs()
+	res := vh.NewResult(prop, a.Seed, a.Tier)
+	res.Rule = "session cases: every quorum of size 2..6 (..10 thorough) drawn from three ID pools (ordinal, sparse unsorted, >= 2^40 incl. 2^64-1), real Round1..4 over CBOR with recording tapes; observables per party: sent messages, verdict(+round, blamed), SessionID, transcript extract, quorum, first 32 bytes of every peer seed, the same for every sub-quorum of size <= 4 (all sizes thorough), nested and refused sub-quorums; tamper cases: bit flip / zero / swap / replay / drop / raw CBOR bit flip of every message type; NewContext called directly with arbitrary seeds; zero shares over k256, edwards25519 and both scalar fields, model shares over Z_q(k256). Non-trivial = the run got past the constructor (all cases) — distinct counts the canonical case text."
+	gs := groups
+	reg := &registry{seeds: map[string]string{}}
+
+	var cases []*kase
+	if a.Replay != "" {
+		data, err := os.ReadFile(a.Replay)
+		if err != nil {
+			fmt.Fprintln(os.Stderr, err)
+			os.Exit(2)
+		}
+		for _, l := range strings.Split(string(data), "\n") {
+			if strings.HasPrefix(l, "case:") {
+				c := strings.TrimSpace(strings.TrimPrefix(l, "case:"))
+				if strings.HasPrefix(c, "sess ") {
+					cases = append(cases, parseCase(c))
+				}
+			}
+		}
+	} else {
+		rng := vh.NewRng(a.Seed, prop, "gen", 0)
+		maxN, maxSub, nTamper := 6, 4, 160
+		if a.Tier == "thorough" {
+			maxN, maxSub, nTamper = 10, 10, 1500
+		}
+		if a.Search {
+			nTamper *= 4
+		}
+		pools := idPools(rng, maxN)
+		n := 0
+		seen := map[string]bool{}
+		for pi, pool := range pools {
+			var qs [][]sharing.ID
+			if a.Tier == "thorough" && maxN > 6 {
+				// all quorums from the first 6 ids + a sample of larger ones
+				qs = subsets(pool[:6], 2, 6)
+				for extra := 0; extra < 12; extra++ {
+					size := 7 + extra%4
+					qs = append(qs, shuffle(rng, pool)[:size])
+				}
+			} else {
+				qs = subsets(pool, 2, maxN)
+			}
+			for qi, q := range qs {
+				// quick tier: the full sub-quorum sweep for every quorum of the first
+				// pool and every third quorum of the others
+				full := pi == 0 || qi%3 == 0 || a.Tier == "thorough"
+				k := &kase{id: fmt.Sprintf("h%d", n), seed: a.Seed*1000 + int64(n), quorum: shuffle(rng, q)}
+				ms := maxSub
+				if len(q) > 7 {
+					ms = 3
+				}
+				if full {
+					k.subs = subPaths(rng, k.quorum, ms, 3)
+				} else {
+					k.subs = subPaths(rng, k.quorum, 2, 1)
+				}
+				if !seen[k.text()] {
+					seen[k.text()] = true
+					cases = append(cases, k)
+					n++
+				}
+			}
+		}
+		// tamper cases
+		for i := 0; i < nTamper; i++ {
+			pool := pools[i%len(pools)]
+			size := 2 + rng.Intn(min(maxN, 6)-1)
+			if i%7 == 0 {
+				size = 2
+			}
+			q := shuffle(rng, pool)[:size]
+			k := &kase{id: fmt.Sprintf("t%d", i), seed: a.Seed*1000 + 500000 + int64(i), quorum: q, tam: genTamper(rng, q, i)}
+			if i%5 == 0 {
+				k.subs = subPaths(rng, q, 2, 0)
+			}
+			cases = append(cases, k)
+		}
 	}
-	fmt.Println(len(tr.Messages), len(dsess.Contexts(tr)))
-	for _, m := range tr.Messages[:3] {
-		fmt.Printf("%d %d->%d %x\n", m.Round, m.From, m.To, m.Payload)
+
+	// run the implementation
+	for _, k := range cases {
+		if p := vh.Safely(k.run); p != "" {
+			res.Mismatch(vh.Mismatch{ID: k.id, Kind: "prop", Key: "harness-panic", Detail: p, Case: k.text(), PropFail: true, What: "driving the session protocol panicked"})
+			k.res = nil
+		}
 	}
+	var live []*kase
+	for _, k := range cases {
+		if k.res != nil {
+			live = append(live, k)
+		}
+	}
+	cases = live
+
+	// the model
+	lrng := vh.NewRng(a.Seed, prop, "line", 0)
+	outs, err := solve(a.Driver, len(cases),
+		func(i int) string { return cases[i].line(lrng) },
+		func(i int, e []string) { cases[i].table = append(cases[i].table, e...) })
+	if err != nil {
+		res.Mismatch(vh.Mismatch{ID: "driver", Kind: "corr", Key: "model-driver-failed", Detail: err.Error(), Case: "-", What: "the extracted model could not be evaluated"})
+		res.Write(a.Out)
+		return
+	}
+
+	for i, k := range cases {
+		class := "honest"
+		if k.tam != nil {
+			class = "tamper-" + k.tam.Kind
+		}
+		class += fmt.Sprintf("/n=%d", len(k.quorum))
+		res.Count(class, k.text(), true)
+		for _, id := range k.res.Quorum {
+			res.Distribution["verdict/"+k.res.Trace.Verdicts[id].Class]++
+		}
+		model := parseKV(outs[i])
+		if os.Getenv("C10_DEBUG") == k.id {
+			fmt.Fprintf(os.Stderr, "CASE %s\nMODEL %s\nIMPL %v\n", k.text(), outs[i], k.impl)
+		}
+		key, detail := diffMaps(model, k.impl)
+		pk, pd := k.predicate(reg, gs)
+		if key != "" {
+			res.Mismatch(vh.Mismatch{ID: k.id, Kind: "corr", Key: "session-" + keyClass(key), Detail: detail + propNote(pk, pd), Case: k.text(), PropFail: pk != "",
+				What: "correspondence Session.party_run / new_context / sub_context vs pkg/mpc/session (theorems C10_sid_agreement, C10_pair_symmetry, C10_pair_distinct, C10_subctx_agree, C10_setup_opening_blame rest on it)"})
+		} else if pk != "" {
+			res.Mismatch(vh.Mismatch{ID: k.id, Kind: "prop", Key: pk, Detail: pd, Case: k.text(), PropFail: true, What: "property predicate on the implementation"})
+		}
+	}
+
+	// zero shares against the model, over Z_q of k256 (honest cases, quorum and first sub-quorums)
+	var zl, zi, zt []string
+	for _, k := range cases {
+		if k.tam != nil || len(k.res.Ctx) != len(k.res.Quorum) {
+			continue
+		}
+		sets := []map[sharing.ID]*rsess.Context{k.res.Ctx}
+		for pi, path := range k.subs {
+			if pi%7 != 0 {
+				continue
+			}
+			m := map[sharing.ID]*rsess.Context{}
+			for _, id := range path[len(path)-1] {
+				if c, ok := k.res.Ctx[id]; ok {
+					if sc := subContext(c, path); sc != nil {
+						m[id] = sc
+					}
+				}
+			}
+			if len(m) == len(path[len(path)-1]) && len(m) >= 2 {
+				sets = append(sets, m)
+			}
+		}
+		for si, set := range sets {
+			id := fmt.Sprintf("z%s.%d", k.id, si)
+			var l, im string
+			var e error
+			if p := vh.Safely(func() { l, im, e = przsLine(id, set) }); p != "" || e != nil {
+				res.Mismatch(vh.Mismatch{ID: id, Kind: "prop", Key: "zero-share-sample-fails", Detail: fmt.Sprint(p, e), Case: k.text(), PropFail: true, What: "przs.SampleZeroShare over the k256 scalar field"})
+				continue
+			}
+			zl, zi, zt = append(zl, l), append(zi, im), append(zt, k.text())
+		}
+	}
+	if len(zl) > 0 {
+		zo, err := vh.Driver(a.Driver, zl)
+		if err != nil {
+			res.Mismatch(vh.Mismatch{ID: "driver", Kind: "corr", Key: "model-driver-failed", Detail: err.Error(), Case: "-", What: "the extracted przs model could not be evaluated"})
+		} else {
+			for i := range zl {
+				res.Count("przs-zq", zl[i], true)
+				if zo[i] != zi[i] {
+					sumBad := !strings.HasSuffix(zi[i], "sum=0")
+					res.Mismatch(vh.Mismatch{ID: strings.Fields(zl[i])[1], Kind: "corr", Key: "przs-share", Detail: "model=" + clip(zo[i]) + " impl=" + clip(zi[i]), Case: zt[i], PropFail: sumBad,
+						What: "correspondence Przs.zero_share vs przs.SampleZeroShare (theorem C10_przs_zero_sum rests on it)"})
+				}
+			}
+		}
+	}
+
+	// NewContext called directly
+	if a.Replay == "" {
+		nrng := vh.NewRng(a.Seed, prop, "newctx", 0)
+		var ncs []*ncCase
+		nn := 60
+		if a.Tier == "thorough" {
+			nn = 600
+		}
+		for i := 0; i < nn; i++ {
+			size := 1 + nrng.Intn(5)
+			q := make([]sharing.ID, 0, size)
+			for len(q) < size {
+				x := sharing.ID(nrng.Uint64() >> uint(nrng.Intn(64)))
+				if i%4 == 0 {
+					x = sharing.ID(nrng.Intn(8)) // small ids, 0 included
+				}
+				if !contains(q, x) {
+					q = append(q, x)
+				}
+			}
+			c := &ncCase{id: fmt.Sprintf("n%d", i), quorum: q, holder: q[0], pairwise: map[sharing.ID][]byte{}}
+			if nrng.Chance(1, 8) {
+				c.holder = sharing.ID(nrng.Intn(4))
+			}
+			lens := []int{0, 16, 31, 32, 33, 64, 100}
+			c.common = nrng.Bytes(vh.Pick(nrng, lens[2:]))
+			for _, id := range q {
+				if nrng.Chance(1, 12) {
+					continue
+				}
+				l := 64
+				if nrng.Chance(1, 6) {
+					l = vh.Pick(nrng, lens)
+				}
+				c.pairwise[id] = nrng.Bytes(l)
+			}
+			c.run()
+			ncs = append(ncs, c)
+		}
+		nout, err := solve(a.Driver, len(ncs), func(i int) string { return ncs[i].line() }, func(i int, e []string) { ncs[i].table = append(ncs[i].table, e...) })
+		if err != nil {
+			res.Mismatch(vh.Mismatch{ID: "driver", Kind: "corr", Key: "model-driver-failed", Detail: err.Error(), Case: "-", What: "the extracted model could not be evaluated (NewContext)"})
+		} else {
+			for i, c := range ncs {
+				cls := "newctx/ok"
+				if c.impl == "ctx=none" {
+					cls = "newctx/refused"
+				}
+				res.Count(cls, c.text(), c.impl != "ctx=none")
+				f := strings.Fields(nout[i])
+				got := ""
+				if len(f) >= 3 {
+					got = f[2]
+				}
+				if got != c.impl {
+					res.Mismatch(vh.Mismatch{ID: c.id, Kind: "corr", Key: "newcontext", Detail: "model=" + clip(got) + " impl=" + clip(c.impl), Case: "newctx " + c.text(), PropFail: c.impl == "ctx=PANIC",
+						What: "correspondence Session.new_context vs session.NewContext"})
+				}
+			}
+		}
+	}
+
+	res.Note("hash oracle: blake2b-256 keyed, SHA3-512 and cSHAKE256 from Go's x/crypto and crypto/sha3, applied to the model's byte strings")
+	res.Write(a.Out)
+	_ = bytes.Equal
+	_ = hashcom.KeySize
+}
+
+func propNote(k, d string) string {
+	if k == "" {
+		return ""
+	}
+	return " | property predicate fails: " + k + ": " + d
 }
